@@ -40,7 +40,7 @@ def place_demo(k):
         return None, None, first
     rel, cmd = m.group(1), mc[-1].strip()
     # "also add `mod X;` to <file>": a private-access demo included from the crate
-    mm = re.search(r"`mod (\w+);`.*?to (crates/\S+\.rs)", line)
+    mm = re.search(r"`(?:#\[cfg\(test\)\]\s*)?mod (\w+);`.*?(?:to|in) (crates/\S+\.rs)", line)
     if mm:
         host = os.path.join(wt, mm.group(2))
         with open(host, "a") as f:
